@@ -203,7 +203,11 @@ def m1(ck: Check) -> None:
             probs.append("depth() skips some nodes")
         if not (".dag.nodes" in it or "node_ids()" in it or "range(len(self))" in it):
             probs.append(f"depth() ranges over `{it}`, not over all nodes")
-        if "['depth']" not in text(c0.elt) or not isinstance(g0.target, ast.Name) or g0.target.id not in text(c0.elt):
+        tnames = [g0.target.id] if isinstance(g0.target, ast.Name) else \
+            [t_.id for t_ in g0.target.elts if isinstance(t_, ast.Name)] if isinstance(g0.target, ast.Tuple) else []
+        # `for _, data in dag.nodes(data=True)`: the element is (id, attribute dict)
+        pair_form = isinstance(g0.target, ast.Tuple) and "nodes(data=True)" in it and len(tnames) == 2 and text(c0.elt) == f"{tnames[1]}['depth']"
+        if not pair_form and ("['depth']" not in text(c0.elt) or not isinstance(g0.target, ast.Name) or g0.target.id not in text(c0.elt)):
             probs.append("depth() does not collect the depth of each node")
         rv = rets[0].value
         uses = set()
